@@ -33,6 +33,23 @@ namespace c03 {
     };
     inline Ledger g_led;
 
+    // operation states of the harness' leaf senders and scheduler senders (never moved): where they
+    // are alive relative to the completion signal is predicted by Model/SenderLedger.v
+    struct OpLedger
+    {
+        std::atomic<long> leaf_c{0}, leaf_d{0}, sched_c{0}, sched_d{0};
+        long sig_leaf = -1, sig_sched = -1;    // alive when the terminal receiver is called (first signal)
+        long del_leaf = -1, del_sched = -1;    // alive right after the receiver destroyed the operation state
+        void reset()
+        {
+            leaf_c = 0; leaf_d = 0; sched_c = 0; sched_d = 0;
+            sig_leaf = sig_sched = del_leaf = del_sched = -1;
+        }
+        long leaf_live() const { return leaf_c.load() - leaf_d.load(); }
+        long sched_live() const { return sched_c.load() - sched_d.load(); }
+    };
+    inline OpLedger g_ops;
+
     struct P
     {
         long v;
@@ -191,8 +208,9 @@ namespace c03 {
         {
             R r;
             leaf_t l;
-            op(R&& r_, leaf_t&& l_) : r(std::move(r_)), l(std::move(l_)) {}
+            op(R&& r_, leaf_t&& l_) : r(std::move(r_)), l(std::move(l_)) { ++g_ops.leaf_c; }
             op(op&&) = delete;
+            ~op() { ++g_ops.leaf_d; }
             void fire() noexcept
             {
                 switch (l.chan)
@@ -243,8 +261,9 @@ namespace c03 {
         {
             R r;
             hsched_data s;
-            op(R&& r_, hsched_data s_) : r(std::move(r_)), s(s_) {}
+            op(R&& r_, hsched_data s_) : r(std::move(r_)), s(s_) { ++g_ops.sched_c; }
             op(op&&) = delete;
+            ~op() { ++g_ops.sched_d; }
             void fire() noexcept
             {
                 switch (s.kind)
@@ -299,12 +318,16 @@ namespace c03 {
                 auto f = std::move(on_first);
                 on_first = nullptr;
                 f();
+                g_ops.del_leaf = g_ops.leaf_live();
+                g_ops.del_sched = g_ops.sched_live();
             }
         }
         bool record_locked(int c, V const* v, std::exception_ptr const* ep)
         {
             if (n.fetch_add(1) == 0)
             {
+                g_ops.sig_leaf = g_ops.leaf_live();
+                g_ops.sig_sched = g_ops.sched_live();
                 chan = c;
                 if (v)
                     for (auto const& p : *v) vals.push_back(p.v);
